@@ -87,7 +87,11 @@ func check(args []string) int {
 	if to == 0 {
 		to = 20 * time.Second
 		if *tier == "thorough" {
+			// thorough: every obligation is decided on its own (no batch query), with three times the budget, and
+			// the vacuity covers get the long budget too
 			to = 60 * time.Second
+			os.Setenv("GOVC_NOBATCH", "1")
+			os.Setenv("GOVC_LONGCOVER", "1")
 		}
 	}
 	return vc.RunCheck(vc.CheckConfig{Property: *prop, Tier: *tier, Seed: seed, Repo: *repo, VerifDir: *verif, Timeout: to, Out: os.Stdout})
